@@ -18,7 +18,7 @@ fn hex_val(c: u8) -> Option<u8> {
 
 // ---------------------------------------------------------------------------------- JSON numbers
 crate::verif_harness! {
-    #[kani::unwind(16)]
+    #[kani::unwind(10)]
     fn c13_number_u64() {
         let v: u64 = kani::any();
         let got = num::deserialize(Value::Number(Number::from(v)));
@@ -33,7 +33,7 @@ crate::verif_harness! {
 }
 
 crate::verif_harness! {
-    #[kani::unwind(16)]
+    #[kani::unwind(10)]
     fn c13_number_i64() {
         let v: i64 = kani::any();
         let got = num::deserialize(Value::Number(Number::from(v)));
@@ -52,7 +52,7 @@ crate::verif_harness! {
 }
 
 crate::verif_harness! {
-    #[kani::unwind(16)]
+    #[kani::unwind(10)]
     fn c13_number_f64() {
         let f: f64 = kani::any();
         kani::assume(f.is_finite());
@@ -80,7 +80,7 @@ crate::verif_harness! {
 
 // optional chain id: null -> None, anything else as above
 crate::verif_harness! {
-    #[kani::unwind(16)]
+    #[kani::unwind(10)]
     fn c13_numopt() {
         let which: u8 = kani::any();
         kani::assume(which < 3);
@@ -174,8 +174,8 @@ macro_rules! number_string_harness {
     )*};
 }
 number_string_harness! {
-    c13_numstr_0 = 0, 12; c13_numstr_1 = 1, 12; c13_numstr_2 = 2, 12; c13_numstr_3 = 3, 12; c13_numstr_4 = 4, 12;
-    c13_numstr_5 = 5, 13; c13_numstr_6 = 6, 14;
+    c13_numstr_0 = 0, 6; c13_numstr_1 = 1, 7; c13_numstr_2 = 2, 8; c13_numstr_3 = 3, 9; c13_numstr_4 = 4, 10;
+    c13_numstr_5 = 5, 11; c13_numstr_6 = 6, 12;
 }
 
 // 2^256 boundary in hexadecimal: 64 digits always fit, 65 digits fit only with a leading zero.
@@ -259,13 +259,13 @@ macro_rules! bytes_field_harness {
     )*};
 }
 bytes_field_harness! {
-    c13_bytes_0 = 0, 12; c13_bytes_1 = 1, 12; c13_bytes_2 = 2, 12; c13_bytes_3 = 3, 12; c13_bytes_4 = 4, 12;
-    c13_bytes_5 = 5, 12; c13_bytes_6 = 6, 12; c13_bytes_8 = 8, 14;
+    c13_bytes_0 = 0, 6; c13_bytes_1 = 1, 7; c13_bytes_2 = 2, 8; c13_bytes_3 = 3, 9; c13_bytes_4 = 4, 10;
+    c13_bytes_5 = 5, 11; c13_bytes_6 = 6, 12; c13_bytes_8 = 8, 14;
 }
 
 // wrong JSON kinds for a byte field
 crate::verif_harness! {
-    #[kani::unwind(16)]
+    #[kani::unwind(10)]
     fn c13_bytes_wrong_kind() {
         let which: u8 = kani::any();
         kani::assume(which < 3);
@@ -344,3 +344,132 @@ fn check_address<const L: usize>() {
 crate::verif_harness! { #[kani::unwind(25)] fn c13_address_19() { check_address::<19>() } }
 crate::verif_harness! { #[kani::unwind(25)] fn c13_address_20() { check_address::<20>() } }
 crate::verif_harness! { #[kani::unwind(25)] fn c13_address_21() { check_address::<21>() } }
+
+// ------------------------------------------------------------------------------------------------
+// The same number checks with serde's primitive deserializers as `D` (instantiation
+// `num::deserialize::<U64Deserializer<serde_json::Error>>` etc.). The production instantiation is
+// `D = serde_json::Value` (harnesses c13_number_* above); its Value-to-Value round trip drags in the
+// whole recursive ValueVisitor (a 28-byte token memcmp forces unwind >= 30, no result in 15 min), so
+// the quick tier decides hdwallet's own logic (sign guard, delegation) on this lighter instantiation.
+use serde::de::value::{F64Deserializer, I64Deserializer, U64Deserializer};
+
+crate::verif_harness! {
+    #[kani::unwind(10)]
+    fn c13_prim_u64() {
+        let v: u64 = kani::any();
+        let got = num::deserialize(U64Deserializer::<serde_json::Error>::new(v));
+        kani::cover!(v == u64::MAX, "u64 maximum");
+        kani::cover!(v == 0, "zero");
+        match &got {
+            Ok(x) => assert!(*x == U256::new(v as u128), "JSON integer changed its value"),
+            Err(_) => panic!("non-negative JSON integer refused"),
+        }
+        core::mem::forget(got);
+    }
+}
+
+crate::verif_harness! {
+    #[kani::unwind(10)]
+    fn c13_prim_i64() {
+        let v: i64 = kani::any();
+        let got = num::deserialize(I64Deserializer::<serde_json::Error>::new(v));
+        kani::cover!(v == -1, "minus one");
+        kani::cover!(v == i64::MIN, "i64 minimum");
+        kani::cover!(v == i64::MAX, "i64 maximum");
+        match &got {
+            Ok(x) => {
+                assert!(v >= 0, "negative JSON number accepted for an unsigned field");
+                assert!(*x == U256::new(v as u128), "JSON integer changed its value");
+            }
+            Err(_) => assert!(v < 0, "non-negative JSON integer refused"),
+        }
+        core::mem::forget(got);
+    }
+}
+
+crate::verif_harness! {
+    #[kani::unwind(10)]
+    fn c13_prim_f64() {
+        let f: f64 = kani::any();
+        kani::assume(f.is_finite());
+        let got = num::deserialize(F64Deserializer::<serde_json::Error>::new(f));
+        const LIMIT: f64 = 9007199254740992.0; // 2^53
+        let integral_safe = f >= 0.0 && f < LIMIT && (f as u64) as f64 == f;
+        kani::cover!(integral_safe && f > 1e15, "large integral float accepted");
+        kani::cover!(f < 0.0 && f > -2.0, "small negative float");
+        kani::cover!(f < 0.0 && (f as i64) as f64 == f && f > -100.0, "negative integral float");
+        kani::cover!(f > 0.0 && f < 1.0, "fraction");
+        kani::cover!(f >= LIMIT, "beyond exactness");
+        match &got {
+            Ok(x) => {
+                assert!(f >= 0.0 || f == 0.0, "negative JSON float accepted for an unsigned field");
+                assert!(f < LIMIT, "float beyond the exactly representable range accepted");
+                assert!((f as u64) as f64 == f, "fractional JSON float accepted");
+                assert!(*x == U256::new((f as u64) as u128), "JSON float changed its value");
+            }
+            Err(_) => assert!(!integral_safe, "integral JSON float in [0, 2^53) refused"),
+        }
+        core::mem::forget(got);
+    }
+}
+
+// JSON floats built from a symbolic integer (keeps the floating-point reasoning to one int->float
+// conversion in the harness): every integral float k in (-2^53, 2^53), and every half-integer k + 0.5.
+crate::verif_harness! {
+    #[kani::unwind(10)]
+    fn c13_prim_f64_integral() {
+        let k: i64 = kani::any();
+        kani::assume(k > -(1i64 << 53) && k < (1i64 << 53));
+        let f = k as f64; // exact
+        let got = num::deserialize(F64Deserializer::<serde_json::Error>::new(f));
+        kani::cover!(k == -1, "minus one point zero");
+        kani::cover!(k < -1000, "large negative integral float");
+        kani::cover!(k > (1i64 << 52), "large integral float");
+        match &got {
+            Ok(x) => {
+                assert!(k >= 0, "negative JSON float accepted for an unsigned field");
+                assert!(*x == U256::new(k as u128), "JSON float changed its value");
+            }
+            Err(_) => assert!(k < 0, "integral JSON float in [0, 2^53) refused"),
+        }
+        core::mem::forget(got);
+    }
+}
+
+crate::verif_harness! {
+    #[kani::unwind(10)]
+    fn c13_prim_f64_fraction() {
+        let k: i64 = kani::any();
+        kani::assume(k > -(1i64 << 51) && k < (1i64 << 51));
+        let f = k as f64 + 0.5; // exact for |k| < 2^51
+        let got = num::deserialize(F64Deserializer::<serde_json::Error>::new(f));
+        kani::cover!(k == 0, "one half");
+        kani::cover!(k < 0, "negative fraction");
+        assert!(got.is_err(), "fractional JSON float accepted");
+        core::mem::forget(got);
+    }
+}
+
+// Small integral floats: f = +/- k for every k in 0..=255 (narrow on purpose: wide symbolic f64 values did
+// not finish -- floating-point conversions bit-blast badly -- and this is the region where a sign guard
+// that only looks at integer-typed JSON numbers goes wrong: -1.0, -2e0, -1.5e1).
+crate::verif_harness! {
+    #[kani::unwind(10)]
+    fn c13_prim_f64_small() {
+        let k: u8 = kani::any();
+        let negative: bool = kani::any();
+        let f = if negative { -(k as f64) } else { k as f64 };
+        let got = num::deserialize(F64Deserializer::<serde_json::Error>::new(f));
+        kani::cover!(negative && k == 1, "minus one point zero");
+        kani::cover!(!negative && k == 255, "255.0");
+        kani::cover!(negative && k == 0, "negative zero");
+        match &got {
+            Ok(x) => {
+                assert!(!negative || k == 0, "negative JSON float accepted for an unsigned field");
+                assert!(*x == U256::new(k as u128), "JSON float changed its value");
+            }
+            Err(_) => assert!(negative && k != 0, "small integral JSON float refused"),
+        }
+        core::mem::forget(got);
+    }
+}
